@@ -34,8 +34,8 @@ CLAIMED = {
  ),
  "C12": dict(
    category="other",
-   text="Timer typestate by abstract interpretation of the state machine SSA: the invariant 'timed step <=> StepTimer and CancelTimer set and a timer armed, of the kind belonging to that step; none while catching up' is inductive over every event case of the live and catch-up loops and round entry; on no abstract path is CancelTimer called while nil or a RoundTimer requested while the previous one is still armed. Structurally: StepTimer/CancelTimer always assigned as a pair; RoundTimer used only by the state machine; in the production timer a start request during the running phase may panic only on the default arm of a non-blocking poll of the cancel channel (cancel-then-start succeeds for every schedule: defect D17, fixed), the elapsed channel is closed only in the timer-fired case, cancel closes once via sync.Once.",
-   design_ref="DESIGN.md §4 C12",
+   text="Timer typestate by abstract interpretation of the state machine SSA: the invariant 'timed step <=> StepTimer and CancelTimer set and a timer armed, of the kind belonging to that step; none while catching up' is inductive over every event case of the live and catch-up loops and round entry; on no abstract path is CancelTimer called while nil or a RoundTimer requested while the previous one is still armed. Structurally: StepTimer/CancelTimer always assigned as a pair; RoundTimer used only by the state machine; in the production timer a start request during the running phase may panic only on the default arm of a non-blocking poll of the cancel channel (cancel-then-start succeeds for every schedule: defect D17, fixed), the elapsed channel is closed only in the timer-fired case, cancel closes once via sync.Once, and once the time.Timer value has been received no path waits on that channel again before the timer is re-armed (a second drain would wedge the goroutine).",
+   design_ref="DESIGN.md §4 C12, §9.8",
    note="Wall-clock behaviour of time.Timer and promptness are not decided. Paths after a failed send/store are exempt (the kernel is stopping). The Go memory model's guarantee that a closed channel is ready in select is trusted.",
    technique="abstract interpretation over go/ssa with a timer typestate + pairing/who-may-call rules + select-case guard analysis of the timer goroutine",
  ),
@@ -76,8 +76,8 @@ CLAIMED = {
  ),
  "C10": dict(
    category="other",
-   text="Crash-point behaviour is not decided; decided are the orderings and guards any crash-consistency argument for this code needs: header saved (error checked) before the persisted position moves on the commit path; write-through of every view change to the round store on the same path; nothing unloadable is persisted; start-up reads position and views from the stores and advances to h+1 exactly under a stored finalization; init-chain only when mirror store uninitialised and no pre-genesis finalization; two writers of finalizations.",
-   design_ref="DESIGN.md §4 C10",
+   text="Crash-point behaviour is not decided; decided are the orderings and guards any crash-consistency argument for this code needs: header saved (error checked) before the persisted position moves on the commit path; write-through of every view change to the round store on the same path; nothing unloadable is persisted; start-up reads position and views from the stores and advances to h+1 exactly under a stored finalization; init-chain only when mirror store uninitialised and no pre-genesis finalization; two writers of finalizations. Also: start-up enters round 0 whenever it moves past an already finalized height, and the shipped round store accepts a replayed header it already recorded, so a replay interrupted between its two store writes can be redelivered after restart.",
+   design_ref="DESIGN.md §4 C10, §9.8",
    note="Equivalence of resumed and uninterrupted runs, and durability semantics of user stores, are not decided.",
    technique="dominance/ordering of store writes on SSA, flag-sensitive all-paths post-dominance, guard edge-dominance, who-may-call",
  ),
